@@ -428,6 +428,7 @@ func equalMethodInputParam(typ *types.Named) *types.Type {
 }
 
 func (g *gen) field(thisField, thatField string, fieldType types.Type) (string, error) {
+	fieldType = types.Unalias(fieldType)
 	if named, isNamed := fieldType.(*types.Named); isNamed {
 		inputType := equalMethodInputParam(named)
 		if inputType != nil {
@@ -448,7 +449,7 @@ func (g *gen) field(thisField, thatField string, fieldType types.Type) (string, 
 
 	switch typ := fieldType.Underlying().(type) {
 	case *types.Pointer:
-		ref := typ.Elem()
+		ref := types.Unalias(typ.Elem())
 		if named, ok := ref.(*types.Named); ok {
 			inputType := equalMethodInputParam(named)
 			if inputType != nil {
